@@ -156,6 +156,7 @@ func VerifC10_step() {
 		} else {
 			vReach("arrival")
 			if L+1 < JS {
+				vAssert(vTickerResets() == 0, "C10: an arrival that does not flush leaves the ticker alone (a steady trickle must not push the next tick away)")
 				vAssert(sent == 0, "C10: an arrival that does not fill the slice does not flush")
 				vAssert(len(d.join) == L+1, "C10: the arrival is buffered")
 			} else {
